@@ -150,8 +150,23 @@ def name_sites_check(site, ei, mode):
                 CommentItem(s, CommentSet())
             elif site == 1:
                 StorageUnitLabel(s)
-            else:
+            elif site == 2:
                 FileHeaderItem(s, FileHeaderSet())
+            elif site == 3:
+                # round 6: the same names assigned AFTER creation (public attributes), then encoded - all inside the mode
+                it = CommentItem('OK', CommentSet())
+                it.origin_reference = 1
+                it.name = s
+                it.make_item_body_bytes()
+            elif site == 4:
+                sul = StorageUnitLabel('OK')
+                sul.set_identifier = s
+                sul.represent_as_bytes()
+            else:
+                fh = FileHeaderItem('OK', FileHeaderSet())
+                fh.origin_reference = 1
+                fh.header_id = s
+                fh.parent._make_body_bytes()
         except ValueError:
             ok = False
         else:
@@ -164,7 +179,7 @@ def name_sites_check(site, ei, mode):
 
 def ob_name_sites(site: int, ei: int, mode: bool) -> int:
     """
-    pre: 0 <= site <= 2 and 0 <= ei < N_NAMES
+    pre: 0 <= site <= 5 and 0 <= ei < N_NAMES
     post: _ == 0
     """
     return name_sites_check(site, ei, mode)
@@ -172,7 +187,7 @@ def ob_name_sites(site: int, ei: int, mode: bool) -> int:
 
 def reach_name_sites(site: int, ei: int, mode: bool) -> int:
     """
-    pre: 0 <= site <= 2 and 0 <= ei < N_NAMES
+    pre: 0 <= site <= 5 and 0 <= ei < N_NAMES
     post: _ != 0
     """
     return name_sites_check(site, ei, mode)
